@@ -340,21 +340,28 @@ Nodes OrthoPlanariser::computeCrossings(void) {
         active.shrink_to_fit();
         // Sort the active events.
         std::sort(active.begin(), active.end(), CompareActiveEvents);
+        // Close events met so far in this x-part. A segment that is shorter than the tolerances used
+        // for partitioning and sorting has its close event sorted before its open event; such a
+        // segment must not be opened at all, or else it would never be closed again.
+        std::set<Event*> closedInPart;
         // Now we can iterate over the active events.
         for (Event *evt : active) {
             switch(evt->type) {
             case EventType::CLOSE:
+                closedInPart.insert(evt);
                 // What is closing? A horizontal or a vertical segment? Act accordingly.
                 if (evt->seg->orientation == vpsc::HORIZONTAL) {
                     // We have hit the close event for a horizontal segment. We must remove the
                     // corresponding sustain event from the set.
                     openH.erase(evt->companion);
-                } else {
+                } else if (openV == evt->companion) {
                     // There is no longer an open vertical segment.
                     openV = nullptr;
                 }
                 break;
             case EventType::OPEN:
+                // Skip segments that have already been closed (see above).
+                if (closedInPart.count(evt->companion) > 0) break;
                 // What is opening? A horizontal or a vertical segment? Act accordingly.
                 if (evt->seg->orientation == vpsc::HORIZONTAL) {
                     // Turn the open event into a sustain event, and add it to the set.
